@@ -189,6 +189,7 @@ func init() {
 			}
 		}
 		one := func(l string) {
+			c.Begin(l)
 			c.Emit(l, sys.run(c, strings.Split(l, " ")))
 		}
 		if ls := replayLines(); ls != nil {
